@@ -1421,11 +1421,26 @@ def _get_switch_candidate(expression, ir):
     res1 = _render_expression(arg1, ir, subexpressions=None)
 
     if res0.is_constant and not res1.is_constant:
-        return arg1, arg0
-    if res1.is_constant and not res0.is_constant:
-        return arg0, arg1
+        discriminant, case_value = arg1, arg0
+    elif res1.is_constant and not res0.is_constant:
+        discriminant, case_value = arg0, arg1
+    else:
+        return None, None
 
-    return None, None
+    # A `case` label must be representable in the (promoted) type of the switch
+    # discriminant, or the generated code will not compile.  A constant outside
+    # of the discriminant's range can never be equal to it; such conditions use
+    # the ordinary `if` path.
+    if discriminant.type.which_type == "integer":
+        value = int(case_value.type.integer.modular_value)
+        if not (
+            int(discriminant.type.integer.minimum_value)
+            <= value
+            <= int(discriminant.type.integer.maximum_value)
+        ):
+            return None, None
+
+    return discriminant, case_value
 
 
 def _generate_optimized_ok_method_body(fields, ir, subexpressions):
